@@ -6,9 +6,11 @@ package main
 
 import (
 	"bytes"
+	"context"
 	"encoding/json"
 	"errors"
 	"fmt"
+	"io"
 	"math"
 	"os"
 	"path/filepath"
@@ -58,11 +60,34 @@ type call struct {
 
 var errInjected = errors.New("injected storage fault")
 
+// the VALUE of an injected fault varies: an ordinary error, and values a storage layer really
+// returns when a connection drops (io.EOF must not be taken for the end of the data)
+type injectedFault struct{ inner error }
+
+func (f injectedFault) Error() string   { return "injected storage fault: " + f.inner.Error() }
+func (f injectedFault) Unwrap() error   { return f.inner }
+func (f injectedFault) Is(t error) bool { return t == errInjected }
+
+var faultValues = []error{errInjected, io.EOF, io.ErrUnexpectedEOF, injectedFault{io.EOF}, context.Canceled}
+
+func isInjected(err error) bool {
+	if err == nil {
+		return false
+	}
+	for _, f := range faultValues {
+		if errors.Is(err, f) {
+			return true
+		}
+	}
+	return false
+}
+
 type refStore struct {
-	data    map[string][]byte
-	log     []call
-	faultAt int // index into log at which the call fails; -1 = never
-	live    bool
+	data     map[string][]byte
+	log      []call
+	faultAt  int   // index into log at which the call fails; -1 = never
+	faultErr error // the error value of the failing call (nil = errInjected)
+	live     bool
 }
 
 func newStore(kvs [][2]string) *refStore {
@@ -79,6 +104,13 @@ func (s *refStore) clone() *refStore {
 		n.data[k] = append([]byte(nil), v...)
 	}
 	return n
+}
+
+func (s *refStore) fault() error {
+	if s.faultErr != nil {
+		return s.faultErr
+	}
+	return errInjected
 }
 
 func (s *refStore) sortedKeys() []string {
@@ -109,7 +141,7 @@ func (s *refStore) record(c call) bool {
 func (s *refStore) Get(key []byte) ([]byte, error) {
 	v, ok := s.data[string(key)]
 	if s.record(call{Op: "Get", Key: string(key), Nil: !ok}) {
-		return nil, errInjected
+		return nil, s.fault()
 	}
 	if !ok {
 		return nil, nil
@@ -118,7 +150,7 @@ func (s *refStore) Get(key []byte) ([]byte, error) {
 }
 func (s *refStore) Put(key, value []byte) error {
 	if s.record(call{Op: "Put", Key: string(key), Arg: []kvql.KVPair{{Key: key, Value: value}}}) {
-		return errInjected
+		return s.fault()
 	}
 	s.data[string(key)] = append([]byte{}, value...)
 	return nil
@@ -129,7 +161,7 @@ func (s *refStore) BatchPut(kvs []kvql.KVPair) error {
 		cp[i] = kvql.KVPair{Key: append([]byte{}, kv.Key...), Value: append([]byte{}, kv.Value...)}
 	}
 	if s.record(call{Op: "BatchPut", Arg: cp}) {
-		return errInjected
+		return s.fault()
 	}
 	for _, kv := range cp {
 		s.data[string(kv.Key)] = kv.Value
@@ -138,7 +170,7 @@ func (s *refStore) BatchPut(kvs []kvql.KVPair) error {
 }
 func (s *refStore) Delete(key []byte) error {
 	if s.record(call{Op: "Delete", Key: string(key)}) {
-		return errInjected
+		return s.fault()
 	}
 	delete(s.data, string(key))
 	return nil
@@ -149,7 +181,7 @@ func (s *refStore) BatchDelete(keys [][]byte) error {
 		cp[i] = append([]byte{}, k...)
 	}
 	if s.record(call{Op: "BatchDelete", Ks: cp}) {
-		return errInjected
+		return s.fault()
 	}
 	for _, k := range cp {
 		delete(s.data, string(k))
@@ -166,7 +198,7 @@ type refCursor struct {
 
 func (s *refStore) Cursor() (kvql.Cursor, error) {
 	if s.record(call{Op: "Cursor"}) {
-		return nil, errInjected
+		return nil, s.fault()
 	}
 	c := &refCursor{s: s}
 	c.keys = s.sortedKeys()
@@ -177,7 +209,7 @@ func (s *refStore) Cursor() (kvql.Cursor, error) {
 }
 func (c *refCursor) Seek(prefix []byte) error {
 	if c.s.record(call{Op: "Seek", Key: string(prefix)}) {
-		return errInjected
+		return c.s.fault()
 	}
 	c.pos = sort.SearchStrings(c.keys, string(prefix))
 	return nil
@@ -194,13 +226,13 @@ func (c *refCursor) Next() ([]byte, []byte, error) {
 	}
 	if c.pos >= len(c.keys) {
 		if c.s.record(call{Op: "Next", Nil: true}) {
-			return nil, nil, errInjected
+			return nil, nil, c.s.fault()
 		}
 		return nil, nil, nil
 	}
 	k, v := c.keys[c.pos], c.vals[c.pos]
 	if c.s.record(call{Op: "Next", Key: k}) {
-		return nil, nil, errInjected
+		return nil, nil, c.s.fault()
 	}
 	c.pos++
 	return []byte(k), append([]byte{}, v...), nil
@@ -226,7 +258,7 @@ func errClass(err error) string {
 	if err == nil {
 		return "ok"
 	}
-	if errors.Is(err, errInjected) {
+	if isInjected(err) {
 		return "storage"
 	}
 	var se *kvql.SyntaxError
